@@ -309,6 +309,39 @@ pub fn finalize(ctx: &Ctx, spec: Spec, mut st: Stats) -> i32 {
             vec![]
         }
     };
+    // ---- sanitizer pass (run by the check script before this process; see /verif/check)
+    let mut san_summary: Option<J> = None;
+    if let Ok(path) = std::env::var("VERIF_SAN_SUMMARY") {
+        if let Ok(t) = std::fs::read_to_string(&path) {
+            san_summary = json::parse(&t).ok();
+        }
+    }
+    if let Ok(path) = std::env::var("VERIF_SAN_REPORT") {
+        if let Ok(text) = std::fs::read_to_string(&path) {
+            let kind = text
+                .lines()
+                .find_map(|l| l.split("AddressSanitizer: ").nth(1))
+                .map(|r| r.split_whitespace().next().unwrap_or("report").to_string())
+                .unwrap_or_else(|| "report".into());
+            let src = env!("FLOUNDER_SRC_USED");
+            let frame = text.lines().find(|l| l.trim_start().starts_with('#') && l.contains(src)).map(|l| l.trim().to_string());
+            match frame {
+                Some(f) => {
+                    // "#3 0x... in fverif::magic::Magic::get_rook_attacks::h1234 /repo/src/magic.rs:196:9"
+                    let func = f.split(" in ").nth(1).and_then(|r| r.split_whitespace().next()).unwrap_or("?").to_string();
+                    let func = func.split("::h").next().unwrap_or(&func).to_string();
+                    let loc = f.split_whitespace().last().unwrap_or("").to_string();
+                    let excerpt: Vec<String> = text.lines().take(24).map(|l| l.to_string()).collect();
+                    st.violation(
+                        format!("{}:asan:{}:{}", ctx.id, kind, func),
+                        format!("AddressSanitizer reports {} in engine code ({} at {}) while the {} workload ran in the sanitizer build", kind, func, loc, ctx.id),
+                        J::obj(vec![("kind", J::s("sanitizer")), ("tool", J::s("AddressSanitizer")), ("seed", J::i(ctx.seed as i64)), ("tier", J::s(ctx.tier_name())), ("report", J::arr_s(excerpt))]),
+                    );
+                }
+                None => st.inconclusive.push(format!("AddressSanitizer reported {} but no frame of the report lies in the engine sources ({}): harness problem, see target/san-out/{}/report.txt", kind, src, ctx.id)),
+            }
+        }
+    }
     let mut fresh: Vec<Violation> = vec![];
     let mut known_hit: BTreeMap<String, (String, u64)> = BTreeMap::new();
     for v in st.violations.iter() {
@@ -374,6 +407,9 @@ pub fn finalize(ctx: &Ctx, spec: Spec, mut st: Stats) -> i32 {
         ("observed".into(), J::from_counts(&st.counts)),
     ];
     cov.extend(spec.extra.clone());
+    if let Some(j) = san_summary {
+        cov.push(("sanitizer_pass".into(), j));
+    }
     if !st.inconclusive.is_empty() {
         cov.push(("inconclusive".into(), J::arr_s(st.inconclusive.clone())));
     }
